@@ -389,6 +389,35 @@ func TestC17(t *testing.T) {
 				w.logf("export the storage genesis and import it into a fresh store")
 				failf(rt, rec, "C17/genesis-roundtrip/listings", w.trace, "%s", what)
 			}
+			// life goes on after the restart: every listed prover posts its next proof (its proof record did not survive the
+			// genesis, so the chain may refuse it); whatever happens, no list may hold a prover twice or exceed its limit
+			rw := &storWorld{c: c, f: fresh, files: w.files}
+			for _, f := range w.files {
+				for _, p := range w.provs {
+					rw.honestProve(p, f)
+				}
+			}
+			for _, byOwner := range []bool{false, true} {
+				files := c.App.StorageKeeper.GetAllFileByMerkle(fresh.Ctx)
+				if byOwner {
+					files = c.App.StorageKeeper.GetAllFileByOwner(fresh.Ctx)
+				}
+				for _, uf := range files {
+					seen := map[string]bool{}
+					for _, pk := range uf.Proofs {
+						a := strings.SplitN(pk, "/", 2)[0]
+						if seen[a] {
+							w.trace = append(w.trace, "export the storage genesis, import it into a fresh store, every prover posts its next proof")
+							failf(rt, rec, "C17/duplicate-prover/after-restart", w.trace, "after a genesis round trip and one more proof per prover, file %x lists %s twice", uf.Merkle[:4], short(a))
+						}
+						seen[a] = true
+					}
+					if int64(len(uf.Proofs)) > uf.MaxProofs {
+						w.trace = append(w.trace, "export the storage genesis, import it into a fresh store, every prover posts its next proof")
+						failf(rt, rec, "C17/prover-list-exceeds-limit/after-restart", w.trace, "after a genesis round trip and one more proof per prover, file %x lists %d provers, limit %d", uf.Merkle[:4], len(uf.Proofs), uf.MaxProofs)
+					}
+				}
+			}
 		}
 		rec.Case(removedFromShared, ev.Hash(w.trace...), func() interface{} { return w.trace })
 	})
